@@ -150,10 +150,13 @@ theorem C05_ifibonacci_invariant {K V : Type} (cmp : K → K → Int) (hc : Lawf
       exact ⟨s', r, h1, h2⟩)
     ops (IFib.new cap) (IFib.invF_new cmp cap)
 
-/-- for an *arbitrary* comparator (no law at all) the index/key/value part still holds for every call that
+/-- `_partial`: for an *arbitrary* comparator (no law at all) the full statement
+`AdmittedG (fun _ _ => True) cmp eq cap Map.empty ops (IFib.run cmp eq cap ops)` is not claimed (with an unlawful
+`cmp` the Model's `ChangeKey` may try to make a non-root node the entry of the root list, which the Model
+answers with `panic`); what is proved: the index/key/value part holds for every call that
 returns: the trace is admitted without the extremality demand up to the first call that does not return, if
 any (`AdmittedWhileOk`), and every state reached satisfies the index-map invariant -/
-theorem C05_ifibonacci_indexmap_anycmp {K V : Type} (cmp : K → K → Int) (eq : V → V → Bool) (cap : Nat)
+theorem C05_ifibonacci_anycmp_partial {K V : Type} (cmp : K → K → Int) (eq : V → V → Bool) (cap : Nat)
     (ops : List (Op K V)) :
     AdmittedWhileOk (fun _ _ => True) cmp eq cap Map.empty ops (IFib.run cmp eq cap ops) ∧
     ∀ h, execWith (IFib.step cmp eq) (IFib.new cap) ops = .ok h → IFib.Inv cap h := by
